@@ -355,10 +355,10 @@ def far(p):
 
 def mapper_many(p):
     """many groups: n (solver-chosen, up to 40) distinct map keys added under two parent keys alternately: every index handed out differs from all live ones, lookups return them"""
-    NMAX_ = p['nmax']
+    n = p['nmax']           # the number of groups is concrete per obligation; the probed group is solver-chosen
 
     def body(a):
-        n = _sel(a[0], NMAX_ + 1)
+        probe = _sel(a[0], n + 1)
         st = MemoryStore(data_type='mapper')
         st.add_key((0,))
         st.add_key((5,))
@@ -375,10 +375,14 @@ def mapper_many(p):
         for (parent, mk_), idx in used.items():
             if st.get_map(parent, mk_) != idx:
                 return fail(problem='lookup of %r' % (mk_,), n=n)
+        if probe < n:
+            parent = (0,) if probe % 2 == 0 else (5,)
+            if st.get_map(parent, ('k', probe)) != used[(parent, ('k', probe))] or st.get_map(parent, ('k', probe + 1000)) is not NS:
+                return fail(problem='probe', probe=probe)
         if list(st.iterate_map((0,))) != [('k', j) for j in range(0, n, 2)] or list(st.iterate_map((5,))) != [('k', j) for j in range(1, n, 2)]:
             return fail(problem='iterate_map', n=n)
         return True
-    return mk('mapper_many', [('n', 'int')], ['0 <= n <= %d' % NMAX_], body)
+    return mk('mapper_many', [('probe', 'int')], ['0 <= probe <= %d' % n], body)
 
 
 FAMILIES = {'far': far, 'mapper_many': mapper_many, 'step': step, 'history': history, 'mapper_step': mapper_step}
@@ -413,7 +417,8 @@ def obligations(tier, seed):
     for t in (('int', 'obj_d') if q else ('int', 'obj_d', 'uint', 'bool_d', 'float', 'obj')):
         for i0 in ((8, 16, 32, 33, 64, 256) if q else BIG):
             obs.append(Ob(PROP, 'far', dict(type=t, i0=i0), budget=b, group='far indices', bound=dict(far_index=i0, neighbours='solver-chosen', type=t)))
-    obs.append(Ob(PROP, 'mapper_many', dict(nmax=40 if q else 130), budget=b * 2, group='many groups', bound=dict(groups='solver-chosen up to %d' % (40 if q else 130))))
+    for nm in ((9, 17, 18, 33, 40) if q else (9, 17, 18, 33, 40, 65, 130, 258)):
+        obs.append(Ob(PROP, 'mapper_many', dict(nmax=nm), budget=b * 2, group='many groups', bound=dict(groups=nm, probe='solver-chosen group')))
     obs.append(Ob(PROP, 'mapper_step', dict(), budget=b, bound=dict(parent_keys=2, map_keys=2, step='one operation from an arbitrary map state')))
     obs.append(Ob(PROP, 'step', dict(k=2, type='int', _twin='reach'), budget=60, expect='refute'))
     obs.append(Ob(PROP, 'mapper_step', dict(_twin='reach'), budget=60, expect='refute'))
